@@ -1,5 +1,6 @@
 import TeleportModel.Base.Util
 import TeleportModel.Model.Vesting
+import TeleportModel.Model.GovCycle
 /-
 C15 — no panic outside transaction recovery.
 
@@ -752,6 +753,55 @@ def rvInitGenesis (g : RvGen) (canPay : Bool) : Out Unit :=
   | .none => .ok ()
   | .bad => .panic "rvesting.InitGenesis: panic(err) AccAddressFromBech32"
   | .good => if canPay then .ok () else .panic "rvesting.InitGenesis: panic(err) SendCoinsFromAccountToModule"
+
+/-! ### rvesting genesis DOCUMENT (life-cycle probe): `init_reward` as the raw coin list of the genesis file -/
+
+/-- the rvesting section of a genesis file. -/
+structure RvDoc where
+  enable : Bool
+  reward : List Vesting.Entry            -- params.per_block_reward
+  src : From                             -- from: empty / malformed / well-formed
+  initReward : GovCycle.Coins            -- init_reward, as written (order, duplicates, zeros preserved)
+  deriving Repr
+
+/-- rvesting `ValidateGenesis`: `validatePerBlockReward` (always), and when `from` is set: bech32, then
+`InitReward.Validate()` = the transcribed `sdk.Coins.Validate` (`GovCycle.rawValid`: valid denominations, strictly increasing, no
+duplicates, positive amounts; empty is valid). -/
+def rvValidateDoc (d : RvDoc) : Out Unit :=
+  if !Vesting.validate d.reward then .err "reward" else
+  match d.src with
+  | .none => .ok ()
+  | .bad => .err "from"
+  | .good => if GovCycle.rawValid d.initReward then .ok () else .err "init-reward"
+
+/-- rvesting `Keeper.InitGenesis` on the document: `SetParams` (panics on an invalid reward list), nothing more when `from` is empty;
+otherwise `SendCoinsFromAccountToModule(from, InitReward)` — `ErrInvalidCoins` unless `InitReward.IsValid()`, `ErrInsufficientFunds`
+unless `from` can pay (`canPay`) — and `panic(err)`. -/
+def rvInitDoc (d : RvDoc) (canPay : Bool) : Out Unit :=
+  if !Vesting.validate d.reward then .panic "rvesting.InitGenesis: SetParamSet invalid value" else
+  match d.src with
+  | .none => .ok ()
+  | .bad => .panic "rvesting.InitGenesis: panic(err) AccAddressFromBech32"
+  | .good =>
+    if !GovCycle.rawValid d.initReward then .panic "rvesting.InitGenesis: panic(err) invalid coins" else
+    if canPay then .ok () else .panic "rvesting.InitGenesis: panic(err) insufficient funds"
+
+/-- the variant with per-coin validation + `sdk.NewCoins` canonicalisation (which panics on a duplicate denomination). -/
+def rvValidateDocPerCoin (d : RvDoc) : Out Unit :=
+  if !Vesting.validate d.reward then .err "reward" else
+  match d.src with
+  | .none => .ok ()
+  | .bad => .err "from"
+  | .good => if d.initReward.all (fun c => Vesting.validDenom c.1 && decide (0 ≤ c.2)) then .ok () else .err "init-reward"
+
+def rvInitDocNewCoins (d : RvDoc) (canPay : Bool) : Out Unit :=
+  if !Vesting.validate d.reward then .panic "SetParamSet" else
+  match d.src with
+  | .none => .ok ()
+  | .bad => .panic "bech32"
+  | .good =>
+    if !decide ((d.initReward.map (·.1)).Nodup) then .panic "sdk.NewCoins: duplicate denomination" else
+    if canPay then .ok () else .panic "insufficient funds"
 
 /-! ## app life cycle: InitChain and the v0.2 upgrade over a genesis account table
 
